@@ -125,10 +125,26 @@ func P4InfoPath() string {
 }
 
 // NewP4d starts a server on addr.
-func NewP4d(addr string) (*P4d, error) {
+func NewP4d(addr string) (*P4d, error) { return NewP4dSized(addr, 0, 0) }
+
+// NewP4dSized starts a server whose P4Info declares smaller meter / counter arrays (0 = as shipped),
+// so that ID pools can be exhausted quickly.
+func NewP4dSized(addr string, meterSize, counterSize int64) (*P4d, error) {
 	info, err := LoadP4Info(P4InfoPath())
 	if err != nil {
 		return nil, fmt.Errorf("p4info: %w", err)
+	}
+	if meterSize > 0 {
+		for _, m := range info.Meters {
+			if strings.HasSuffix(m.Preamble.Name, "app_meter") || strings.HasSuffix(m.Preamble.Name, "session_meter") {
+				m.Size = meterSize
+			}
+		}
+	}
+	if counterSize > 0 {
+		for _, c := range info.Counters {
+			c.Size = counterSize
+		}
 	}
 	lis, err := net.Listen("tcp", addr)
 	if err != nil {
